@@ -296,14 +296,17 @@ func (s *Session) shutdown() {
 	if s.tick != nil {
 		s.tick.Stop()
 	}
+	// Close the done channel only once and under the lock: shutdown can run more
+	// than once on a server-side Session (two shutdown notices handled at the
+	// same time), the first run sets the Closed flag.
+	x := s.state.Closed()
 	if s.state.Set(stateClosed); !s.IsClient() {
 		s.s.Remove(s.ID, false)
 	}
-	s.m.close()
-	if s.lock.Unlock(); s.isMoving() {
-		return
+	if s.m.close(); !x && !s.isMoving() {
+		close(s.ch)
 	}
-	close(s.ch)
+	s.lock.Unlock()
 }
 
 // Close stops the listening thread from this Session and releases all
